@@ -709,6 +709,61 @@ NO_MATCH_TRIAGED = {
 }
 
 
+def g23_g24(repo, res):
+    """G23 a pattern that decides whether a style value is accepted is matched exactly: `fullmatch`, or a pattern that ends in `\\Z`.  `match` /
+        `search` with a pattern ending in `$` also accept the value followed by a newline (`"#ff0000\\n"` is stored as a colour), `match`
+        without an end anchor accepts any continuation.
+    G24 an assertion whose message announces a range ("between A and B") tests that range: both bounds occur in the asserted expression, or
+        are handed to the helper it calls (a shared helper with optional bounds called without them checks the type only)."""
+    mods = [m for m in repo.mods.values() if m.name.startswith(("magpylib._src.defaults", "magpylib._src.style"))]
+    n23 = n24 = 0
+    for m in mods:
+        pats = {}          # name -> pattern text, for `X = re.compile("..")` at module or function level
+        for a in ast.walk(m.tree):
+            if isinstance(a, ast.Assign) and len(a.targets) == 1 and isinstance(a.targets[0], ast.Name) and isinstance(a.value, ast.Call) \
+                    and ast.unparse(a.value.func) == "re.compile" and a.value.args and isinstance(a.value.args[0], ast.Constant) and isinstance(a.value.args[0].value, str):
+                pats[a.targets[0].id] = a.value.args[0].value
+        for _m, qn, fn, cl in repo.all_functions():
+            if _m is not m:
+                continue
+            for c in ast.walk(fn):
+                if not (isinstance(c, ast.Call) and isinstance(c.func, ast.Attribute) and c.func.attr in ("match", "search", "fullmatch")):
+                    continue
+                pat = None
+                if isinstance(c.func.value, ast.Name) and c.func.value.id in pats:
+                    pat = pats[c.func.value.id]
+                elif isinstance(c.func.value, ast.Name) and c.func.value.id == "re" and c.args and isinstance(c.args[0], ast.Constant) and isinstance(c.args[0].value, str):
+                    pat = c.args[0].value
+                elif isinstance(c.func.value, ast.Call) and ast.unparse(c.func.value.func) == "re.compile" and c.func.value.args \
+                        and isinstance(c.func.value.args[0], ast.Constant) and isinstance(c.func.value.args[0].value, str):
+                    pat = c.func.value.args[0].value
+                if pat is None:
+                    continue
+                n23 += 1
+                exact = c.func.attr == "fullmatch" or pat.endswith("\\Z")
+                res.ob(f"G23:{qn}:{norm(c)}", exact, {"rule": "G23", "function": qn, "pattern": pat, "method": c.func.attr})
+                if not exact:
+                    why = "`$` also matches in front of a trailing newline" if pat.endswith("$") and not pat.endswith("\\$") else "nothing anchors the end of the value"
+                    res.add(Finding("G23", m.rel, qn, c, f"the pattern {pat!r} is applied with `{c.func.attr}`: {why}, so a value that is not of the announced form is accepted "
+                                    "and stored", c.lineno))
+            for a in ast.walk(fn):
+                if not (isinstance(a, ast.Assert) and a.msg is not None):
+                    continue
+                text = " ".join(x.value for x in ast.walk(a.msg) if isinstance(x, ast.Constant) and isinstance(x.value, str))
+                mm = re.search(r"between\s+\[?(-?\d+(?:\.\d+)?)\s*(?:and|,)\s*(-?\d+(?:\.\d+)?)", text)
+                if not mm:
+                    continue
+                n24 += 1
+                bounds = {float(mm.group(1)), float(mm.group(2))}
+                seen_ = {float(x.value) for x in ast.walk(a.test) if isinstance(x, ast.Constant) and isinstance(x.value, (int, float)) and not isinstance(x.value, bool)}
+                ok = bounds <= seen_
+                res.ob(f"G24:{qn}", ok, {"rule": "G24", "function": qn, "announced": sorted(bounds), "numbers_in_the_test": sorted(seen_)})
+                if not ok:
+                    res.add(Finding("G24", m.rel, qn, a.test, f"the message announces the range {sorted(bounds)} but the asserted expression `{norm(a.test)[:80]}` does not "
+                                    "mention these bounds (a shared helper called without them checks the type only): out-of-range values are stored", a.lineno))
+    res.require(n23 >= 1 and n24 >= 2, f"G23/G24: only {n23} pattern matches / {n24} range assertions found in the style code")
+
+
 def g20_g21(repo, res):
     """G20 a style / defaults class hands every named constructor parameter on to its base constructor (`super().__init__(a=a, b=b, **kwargs)`):
         `update()` and `reset()` rebuild sub-objects through their constructors, so a parameter that is swallowed loses the whole sub-tree
@@ -805,7 +860,7 @@ def g19(repo, res):
 
 def run(repo, res, tier):
     res.rules = ["G1 reset/DEFAULTS vs property tree", "G2 alias-free properties", "G3 leaf setters validate", "G4 no caller dict mutated/captured", "G5 precedence dataflow in get_style", "G6 no memoisation on the style path", "G7 temporary style removed on all exits", "G8 exact validation of style names", "G5b None-filters not truthiness", "REC-FWD style keywords forwarded through recursion", "G4b style setter adopts no foreign style object", "G10 no preset values in style constructors",
-                 "G12 generic families before specific ones", "G13 lazy style kwargs not bypassed", "G13b rejected style kwargs stay pending", "G14 style copies are deep", "G15 show() flattens every style keyword", "G16 admitted-value tables are collections, not strings", "G17 DisplayContext.reset forgets everything", "G18 sequence-valued leaves store a copy", "G19 name matching switched off only at triaged internal sites"]
+                 "G12 generic families before specific ones", "G13 lazy style kwargs not bypassed", "G13b rejected style kwargs stay pending", "G14 style copies are deep", "G15 show() flattens every style keyword", "G16 admitted-value tables are collections, not strings", "G17 DisplayContext.reset forgets everything", "G18 sequence-valued leaves store a copy", "G19 name matching switched off only at triaged internal sites", "G23 value patterns matched exactly", "G24 announced ranges are tested"]
     g1(repo, res)
     g2_g3(repo, res)
     import origin_rules
@@ -823,6 +878,7 @@ def run(repo, res, tier):
     g17_g18(repo, res)
     g19(repo, res)
     g20_g21(repo, res)
+    g23_g24(repo, res)
     import rules_domain
     rules_domain.sets_are_collections(repo, res, 'G16')
     res.assumptions += ["property tree links are the validate_property_class(val, name, Class, self) calls in the setters",
